@@ -2,6 +2,7 @@
 from __future__ import annotations
 
 import io
+import itertools
 import json
 import random
 import struct
@@ -22,7 +23,11 @@ MANIFEST = dict(
               'correspondences (codecs, frame histories, container both directions incl. foreign full-chain files) + save/read oracle search; '
               'round 4: fail-closed census of every use of a frame\'s pixel array with an address-map model (shape of every access path, '
               'allocation sizes, copy guards), if statements of the pixel loop as ETest chains (bluescreen formats, hand proof + 256-value '
-              'enumeration), per-pixel laws lifted to frames by induction and composed with the whole-file theorem; cross-path oracle',
+              'enumeration), per-pixel laws lifted to frames by induction and composed with the whole-file theorem; cross-path oracle; '
+              'round 5: the abstract interpretation of class Frame also follows every exit by exception (explicit raise, assert, import, '
+              'every call that can raise, partial multi-element stores) into per-method raise tables with a kernel-checked cleanliness '
+              'boolean, census of attribute stores of VTF methods, rejected-call / failing-stream oracle, one whole-property theorem over '
+              'the generated objects',
     text='Theorems in Props/C15.v, generic in the objects read from the source. Codecs (_py_vtf_readwrite.py): if the kernel-checked '
          'boolean rt_ok codec spec holds then load(save p) is exactly the documented quantisation of p for every byte-valued pixel '
          '(identity on the used channels for the 8-bit formats), every stored value is a byte; if sf_ok holds then save(load d) = d on '
@@ -44,7 +49,7 @@ MANIFEST = dict(
          'side/depth, mipmap) read() visits gets exactly the bytes save() produced for it, for any object version and written version '
          '(save(version=)), cubemap or volume; every fitting file can be encoded. Particle sheets: read_sheet(make_sheet qs) = qs for '
          'both sheet versions (version 0 keeps the first coordinate of a frame only). The premises are regenerated from '
-         'vtf.py/_py_vtf_readwrite.py on every run and checked in the kernel (253 obligations); the generated codecs are compared with '
+         'vtf.py/_py_vtf_readwrite.py on every run and checked in the kernel (291 obligations); the generated codecs are compared with '
          'the Python codecs, the generated Frame effect tables are run by Coq on symbolic pixels against histories of operations on the '
          'implementation, implementation-saved files are decoded by the Coq container model and model-encoded files (also files that '
          'declare all mipmap levels, as other tools write them) are read by VTF.read; whole files are saved and read back over all '
@@ -90,7 +95,9 @@ IMPORTS_CONT = ['Coq.NArith.NArith', 'Coq.ZArith.ZArith', 'Coq.Lists.List', 'Coq
                 'SV.Fmt.VtfContainer', 'SV.Fmt.VtfWholeFile', 'SV.Gen.VtfContainer_gen']
 IMPORTS_ACCESS = ['Coq.ZArith.ZArith', 'Coq.Lists.List', 'Coq.Strings.String', 'Coq.Bool.Bool', 'SV.Fmt.VtfLayout', 'SV.Fmt.VtfAccess',
                   'SV.Gen.VtfLayout_gen', 'SV.Gen.VtfAccess_gen']
-IMPORTS_FRAME = ['Coq.Lists.List', 'Coq.Strings.String', 'Coq.Bool.Bool', 'SV.Fmt.VtfFrameSM', 'SV.Gen.VtfFrameSM_gen']
+IMPORTS_WHOLE = ['Coq.NArith.NArith', 'Coq.ZArith.ZArith', 'Coq.Lists.List', 'Coq.Bool.Bool', 'SV.Fmt.VtfPixelExpr', 'SV.Gen.PixelCodecs_gen',
+                 'SV.Fmt.VtfC15WholeProofs']
+IMPORTS_FRAME = ['Coq.Lists.List', 'Coq.Strings.String', 'Coq.Bool.Bool', 'SV.Fmt.VtfFrameSM', 'SV.Fmt.VtfFrameRaise', 'SV.Gen.VtfFrameSM_gen']
 
 # format (lower case) -> (specification of load-after-save, canonical stored form)
 SPECS = {
@@ -1714,6 +1721,22 @@ FRAME_OBS = {
     'frame_chain_configuration_ok': 'chain_ok gen_chaincfg',
 }
 
+MUTATORS = ['load', 'clear', 'fill', 'copy_from', 'rescale_from', '__setitem__']
+
+
+def frame_obligations(info: dict) -> dict[str, str]:
+    """FRAME_OBS plus one named boolean per method of Frame in the census of exits by exception (Gen/VtfFrameSM_gen.v,
+    gen_raise_tables): at every explicit raise / call that can raise, nothing the frame shows has been changed yet."""
+    obs = dict(FRAME_OBS)
+    names = list(MUTATORS) + [n for n in info.get('raise_tables', {}) if n not in MUTATORS]
+    for n in names:
+        obs[f'frame_{n.strip("_")}_has_changed_nothing_the_frame_shows_wherever_it_can_raise'] = f'method_raises_cleanly gen_raise_tables "{n}"'
+    obs['vtf_methods_other_than_init_change_no_attribute_of_the_object_itself'] = 'match gen_vtf_self_stores with nil => true | _ => false end'
+    obs['every_frame_method_keeps_the_file_source_and_the_pixels_until_nothing_can_raise_any_more'] = \
+        '(raise_tables_ok gen_raise_tables && negb (Nat.eqb (List.length gen_raise_tables) 0))%bool'
+    return obs
+
+
 PRE_FRAME = """Import ListNotations. Open Scope nat_scope. Open Scope list_scope.
 Inductive sym := SFile (m : nat) | SNew (k : nat) | SBlank (m : nat) | SScale (m : nat) (s : sym) | SMod (s : sym).
 Fixpoint ser (s : sym) : list nat :=
@@ -1772,6 +1795,274 @@ def history_base(seed: int) -> tuple[bytes, int, list[bytes]]:
     return buf.getvalue(), n, [bytes(v.get(mipmap=m)._data) for m in range(n)]
 
 
+# ---- calls that must be REJECTED (round 5): the caller catches the exception and carries on
+REJECTS = ['copy_short', 'copy_long', 'copy_rgb_without_format', 'copy_frame_of_other_size', 'copy_format_without_decoder',
+           'copy_not_a_buffer', 'rescale_from_unrelated_size', 'setitem_out_of_range', 'getitem_out_of_range',
+           'setitem_three_values', 'setitem_channel_out_of_range', 'setitem_channel_not_a_number', 'fill_out_of_range', 'self_copy']
+VTF_REJECTS = ['save_bad_version', 'save_stream_fails', 'get_bad_key', 'volumetric_as_7_1']
+ACCEPTED_NOOPS = {'self_copy'}       # not rejected, but must not change anything either
+
+
+class _NotRejected(Exception):
+    pass
+
+
+class _FailingStream(io.BytesIO):
+    """write() fails once `limit` bytes were written (disk full)"""
+    def __init__(self, limit: int) -> None:
+        super().__init__()
+        self.limit = limit
+
+    def write(self, b):
+        if self.tell() + len(b) > self.limit:
+            raise OSError(28, 'No space left on device')
+        return super().write(b)
+
+
+def _do_reject(v, fr, m: int, which: str) -> None:
+    from srctools.vtf import VTF, ImageFormats
+    w, h = fr.width, fr.height
+    other = VTF(4 * w, 4 * h, fmt=ImageFormats.RGBA8888, thumb_fmt=ImageFormats.NONE).get()
+    other.fill(9, 8, 7, 6)
+    calls = {
+        'copy_short': (lambda: fr.copy_from(bytes(4 * w * h - 4)), (ValueError, BufferError)),
+        'copy_long': (lambda: fr.copy_from(bytes(4 * w * h + 4)), (ValueError, BufferError)),
+        'copy_rgb_without_format': (lambda: fr.copy_from(bytes([7]) * (3 * w * h)), (ValueError, BufferError)),
+        'copy_frame_of_other_size': (lambda: fr.copy_from(other), (ValueError,)),
+        'copy_format_without_decoder': (lambda: fr.copy_from(bytes([7]) * (8 * w * h), ImageFormats.RGBA16161616), (NotImplementedError,)),
+        'copy_not_a_buffer': (lambda: fr.copy_from(12345), (TypeError,)),
+        'rescale_from_unrelated_size': (lambda: fr.rescale_from(other), (ValueError,)),
+        'setitem_out_of_range': (lambda: fr.__setitem__((w, 0), (1, 2, 3, 4)), (IndexError,)),
+        'getitem_out_of_range': (lambda: fr[0, h], (IndexError,)),
+        'setitem_three_values': (lambda: fr.__setitem__((0, 0), (1, 2, 3)), (ValueError, TypeError)),
+        'setitem_channel_out_of_range': (lambda: fr.__setitem__((1 % w, 0), (1, 2, 3, 999)), (OverflowError, ValueError)),
+        'setitem_channel_not_a_number': (lambda: fr.__setitem__((0, 0), (1, 'x', 3, 4)), (TypeError, ValueError)),
+        'fill_out_of_range': (lambda: fr.fill(256, 0, 0, 255), (OverflowError, ValueError)),
+        'self_copy': (lambda: fr.copy_from(fr), ()),
+    }
+    fn, excs = calls[which]
+    try:
+        fn()
+    except excs:
+        return
+    if which not in ACCEPTED_NOOPS:
+        raise _NotRejected(which)
+
+
+def _do_vtf_reject(v, which: str) -> None:
+    try:
+        if which == 'save_bad_version':
+            v.save(io.BytesIO(), version=(7, 9))
+        elif which == 'save_stream_fails':
+            v.save(_FailingStream(200))
+        elif which == 'get_bad_key':
+            v.get(mipmap=99)
+        elif which == 'volumetric_as_7_1':
+            old = v.depth
+            v.depth = 2
+            try:
+                v.save(io.BytesIO(), version=(7, 1))
+            finally:
+                v.depth = old
+    except (ValueError, OSError, KeyError):
+        return
+    raise _NotRejected(which)
+
+
+def reject_alternatives(ops: list[list]):
+    """What a rejected call may amount to: nothing, or what an explicit load() of the frame does (every reading access
+    does that: a cleared frame gets its blank pixels); a save() that fails half-way may have run compute_mipmaps()."""
+    idx = [i for i, op in enumerate(ops) if op[0] == 'reject']
+    for choice in itertools.product((0, 1), repeat=len(idx)):
+        pick = dict(zip(idx, choice))
+        out: list[list] = []
+        for i, op in enumerate(ops):
+            if op[0] != 'reject':
+                out.append(op)
+            elif pick[i]:
+                out.append(['compute'] if op[2] in VTF_REJECTS else ['load', op[1]])
+        yield out
+
+
+def gen_reject_history(rng: random.Random, n: int) -> list[list]:
+    """a random history without __exit__, with one or two rejected calls in it (a failing save() only as the last operation)"""
+    ops = [op for op in gen_history(rng, n) if op[0] != 'exit']
+    for _ in range(rng.choice([1, 1, 2])):
+        which = rng.choice(REJECTS + REJECTS + VTF_REJECTS)
+        if which in VTF_REJECTS:
+            ops.append(['reject', 0, which])
+        else:
+            ops.insert(rng.randrange(len(ops) + 1), ['reject', rng.randrange(n), which])
+    vt = [op for op in ops if op[0] == 'reject' and op[2] in VTF_REJECTS]
+    return [op for op in ops if op not in vt] + vt
+
+
+def reject_view_case(seed: int, pre: str, m: int, which: str | None) -> list[tuple[str, str]]:
+    """One frame of a lazily read file in the state `pre`, one rejected call, then what the frame SHOWS."""
+    from srctools.vtf import VTF
+    base, n, levels = history_base(seed)
+    m = min(m, n - 1)
+    v = VTF.read(io.BytesIO(base))
+    fr = v.get(mipmap=m)
+    want = levels[m]
+    if pre == 'loaded':
+        fr.load()
+    elif pre == 'cleared':
+        fr.clear()
+        want = bytes((0, 0, 0, 255)) * (fr.width * fr.height)
+    elif pre == 'rescaled' and m >= 1:
+        fr.rescale_from(v.get(mipmap=m - 1))
+    what = f'lazy read of a {HIST_W}x{HIST_H} file, level {m} {pre}, then the rejected call {which}'
+    try:
+        if which is None:
+            pass            # base line: the same frame without the rejected call
+        elif which in VTF_REJECTS:
+            _do_vtf_reject(v, which)
+        else:
+            _do_reject(v, fr, m, which)
+    except _NotRejected:
+        return [(f'call-that-must-be-rejected-is-accepted-{which}', what + ': no exception')]
+    except Exception as e:     # noqa: BLE001
+        return [(f'rejected-call-raises-{type(e).__name__}-{which}', what + f': unexpected {type(e).__name__}: {e}')]
+    try:
+        got = bytes(memoryview(fr))
+    except Exception as e:     # noqa: BLE001
+        return [(f'rejected-call-breaks-the-frame-{which}', what + f': the frame can no longer be read: {type(e).__name__}: {e}')]
+    if pre == 'cleared' and which in ('save_stream_fails', 'volumetric_as_7_1', 'save_bad_version'):
+        return []       # a save() that fails half-way may have regenerated the cleared level (compute_mipmaps), as a complete one does
+    if got != want:
+        black = got == bytes((0, 0, 0, 255)) * (fr.width * fr.height)
+        return [(f'rejected-call-changes-the-pixels-shown-{which}', what + ': the frame shows other pixels afterwards'
+                 + (' (opaque black)' if black else ''))]
+    return []
+
+
+META_REJECTS = ['save_version_7_9', 'save_version_8_2', 'save_stream_fails_after_40', 'save_stream_fails_after_90',
+                'save_stream_fails_after_150', 'save_stream_fails_after_400', 'save_stream_fails_after_2000', 'get_mipmap_99',
+                'clear_mipmaps_after_not_a_number', 'thumbnail_copy_short', 'thumbnail_copy_frame_of_other_size',
+                'frame_1_copy_short', 'volumetric_as_7_1']
+
+
+def reject_meta_case(seed: int, which: str | None) -> list[tuple[str, str]]:
+    """A 7.4 file with flags, reflectivity, two frames, an inline and a data resource, a particle sheet and a thumbnail is read
+    lazily; one call is rejected (or a save() fails half-way) and the caller carries on; the next save() must write the file
+    byte for byte (a lazy re-save does, without the rejected call: checked first)."""
+    from srctools.vtf import VTF, ImageFormats, Resource, ResourceID, VTFFlags, SheetSequence, TexCoord
+    r = random.Random(seed)
+    tc = TexCoord(0.0, 0.25, 0.5, 0.75)
+    seq = SheetSequence(frames=[(1.0, tc, tc, tc, tc)], clamp=True, duration=1.0)
+    v = VTF(16, 8, frames=2, version=(7, 4), fmt=ImageFormats.BGRA8888, thumb_fmt=ImageFormats.RGB888, ref=(0.25, 0.5, 0.75),
+            bump_scale=2.0, flags=VTFFlags.CLAMP_S | VTFFlags.NO_MIP, sheet_info={3: seq})
+    v.resources[ResourceID.LOD_SETTINGS] = Resource(0, 0x01020304)
+    v.resources[b'XYZ'] = Resource(0, bytes(r.randrange(256) for _ in range(21)))
+    for fr in v._frames.values():
+        fr.copy_from(r.randbytes(4 * fr.width * fr.height))
+    v._low_res.copy_from(r.randbytes(4 * v._low_res.width * v._low_res.height))
+    b = io.BytesIO()
+    v.save(b)
+    data = b.getvalue()
+    w = VTF.read(io.BytesIO(data))
+    what = f'a 7.4 file with resources, sheet and thumbnail read lazily, then the rejected call {which}'
+    try:
+        try:
+            if which is None:
+                pass
+            elif which.startswith('save_version_'):
+                w.save(io.BytesIO(), version=(int(which[-3]), int(which[-1])))
+            elif which.startswith('save_stream_fails_after_'):
+                w.save(_FailingStream(int(which.rsplit('_', 1)[1])))
+            elif which == 'get_mipmap_99':
+                w.get(mipmap=99)
+            elif which == 'clear_mipmaps_after_not_a_number':
+                w.clear_mipmaps(after='x')
+            elif which == 'thumbnail_copy_short':
+                w._low_res.copy_from(bytes(5))
+            elif which == 'thumbnail_copy_frame_of_other_size':
+                w._low_res.copy_from(w.get(frame=1))
+            elif which == 'frame_1_copy_short':
+                w.get(frame=1).copy_from(bytes(5))
+            elif which == 'volumetric_as_7_1':
+                w.depth = 2
+                try:
+                    w.save(io.BytesIO(), version=(7, 1))
+                finally:
+                    w.depth = 1
+        except (ValueError, OSError, KeyError, TypeError, BufferError):
+            pass
+        else:
+            if which is not None:
+                return [(f'call-that-must-be-rejected-is-accepted-{which}', what + ': no exception')]
+        out = io.BytesIO()
+        w.save(out)
+    except Exception as e:     # noqa: BLE001
+        return [(f'rejected-call-then-save-raises-{type(e).__name__}-{which}', what + f', then save: {type(e).__name__}: {e}')]
+    if out.getvalue() != data:
+        a, c = out.getvalue(), data
+        i = next((k for k in range(min(len(a), len(c))) if a[k] != c[k]), min(len(a), len(c)))
+        return [(f'rejected-call-changes-the-saved-file-{which}', what + f': the next save() writes {len(a)} bytes, the file has {len(c)}, first '
+                 f'difference at byte {i}')]
+    return []
+
+
+class _FlakyStream(io.BytesIO):
+    """fails exactly once, in the given way, the next time a frame is fetched"""
+    mode = ''
+
+    def seek(self, *a):
+        if self.mode == 'seek':
+            self.mode = ''
+            raise OSError(5, 'Input/output error')
+        return super().seek(*a)
+
+    def read(self, *a):
+        if self.mode == 'read':
+            self.mode = ''
+            raise OSError(5, 'Input/output error')
+        if self.mode == 'short':
+            self.mode = ''
+            return super().read(*a)[:-3]
+        return super().read(*a)
+
+
+def failed_load_case(seed: int, mode: str, m: int, then: str) -> list[tuple[str, str]]:
+    """The stream fails ONCE while level m is fetched (by load() / pixel access / save()); the caller catches the error;
+    afterwards the frame must either raise again or show the file's pixels, and a save must store them."""
+    from srctools.vtf import VTF
+    base, n, levels = history_base(seed)
+    m = min(m, n - 1)
+    stream = _FlakyStream(base)
+    v = VTF.read(stream)
+    fr = v.get(mipmap=m)
+    what = f'lazy read of a {HIST_W}x{HIST_H} file, the stream fails once ({mode}) while level {m} is fetched by {then}'
+    stream.mode = mode
+    try:
+        if then == 'load':
+            fr.load()
+        elif then == 'getitem':
+            fr[0, 0]
+        else:
+            v.save(io.BytesIO())                   # save() walks the smallest level first: the failure hits that one
+    except (OSError, BufferError, ValueError):
+        pass
+    else:
+        if stream.mode == '':
+            return [(f'failed-load-not-reported-{mode}', what + ': no exception although the stream failed')]
+    stream.mode = ''
+    try:
+        out = io.BytesIO()
+        v.save(out)
+        back = VTF.read(io.BytesIO(out.getvalue()))
+        back.load()
+        got = [bytes(back.get(mipmap=k)._data) for k in range(n)]
+    except Exception as e:     # noqa: BLE001
+        return [(f'failed-load-then-save-raises-{type(e).__name__}', what + f', then save: {type(e).__name__}: {e}')]
+    if got != levels:
+        k = next(i for i in range(n) if got[i] != levels[i])
+        return [('failed-load-leaves-the-frame-without-its-file-source', what + f'; the caller catches the error; a later save() (the stream works '
+                 f'again) stores other pixels than the file has for level {k}' + (' (opaque black)' if got[k] == bytes((0, 0, 0, 255)) * (len(got[k]) // 4) else ''))]
+    return []
+
+
 def run_history_impl(base: bytes, n: int, ops: list[list]) -> list[bytes]:
     """The implementation: lazy read, operations, save, read back; pixels of levels 0..n-1 of the new file."""
     from srctools.vtf import VTF
@@ -1787,7 +2078,13 @@ def run_history_impl(base: bytes, n: int, ops: list[list]) -> list[bytes]:
         if kind == 'clear_after':           # VTF.clear_mipmaps(after=a): the levels BELOW level a (index > a) are cleared, level a is kept
             v.clear_mipmaps(after=op[1])
             continue
+        if kind == 'reject' and op[2] in VTF_REJECTS:
+            _do_vtf_reject(v, op[2])
+            continue
         fr = v.get(mipmap=op[1])
+        if kind == 'reject':
+            _do_reject(v, fr, op[1], op[2])
+            continue
         if kind == 'load':
             fr.load()
         elif kind == 'clear':
@@ -1897,20 +2194,56 @@ HIST_KEYS = {'file': 'frame-history-level-with-file-source-not-written-from-the-
              'regenerated': 'frame-history-regenerated-level-not-average-of-its-written-parent'}
 
 
-def check_history(base: bytes, n: int, levels: list[bytes], ops: list[list]) -> list[tuple[str, str]]:
+def _culprit(base: bytes, n: int, levels: list[bytes], ops: list[list], m: int) -> str:
+    """the rejected call without which the history is fine (else the first one aimed at the level that is wrong, else the first)"""
+    idx = [i for i, op in enumerate(ops) if op[0] == 'reject']
+    if len(idx) > 1:
+        for i in idx:
+            if not check_history(base, n, levels, ops[:i] + ops[i + 1:], blame=False):
+                return ops[i][2]
+    return ([op[2] for op in ops if op[0] == 'reject' and op[1] == m and op[2] not in VTF_REJECTS] or [ops[idx[0]][2]])[0]
+
+
+def check_history(base: bytes, n: int, levels: list[bytes], ops: list[list], blame: bool = True) -> list[tuple[str, str]]:
+    rejects = [op[2] for op in ops if op[0] == 'reject']
     try:
         got = run_history_impl(base, n, ops)
+    except _NotRejected as e:
+        return [(f'call-that-must-be-rejected-is-accepted-{e}', f'lazy read, {ops}: the call {e} did not raise')]
     except Exception as e:
+        if rejects:
+            who = rejects[0]
+            idx = [i for i, op in enumerate(ops) if op[0] == 'reject']
+            if blame and len(idx) > 1:
+                for i in idx:       # the rejected call without which the history is fine
+                    if not check_history(base, n, levels, ops[:i] + ops[i + 1:], blame=False):
+                        who = ops[i][2]
+                        break
+            return [(f'rejected-call-then-save-raises-{type(e).__name__}-{who}', f'lazy read, {ops}, save: {type(e).__name__}: {e}')]
         return [(f'frame-history-raises-{type(e).__name__}', f'lazy read, {ops}, save: {type(e).__name__}: {e}')]
-    probs = []
-    for m, ((why, exp), g) in enumerate(zip(spec_history(levels, ops), got)):
-        if why == 'unjudged':
-            break
-        if g != exp:
-            probs.append((HIST_KEYS[why], f'lazy read of a {HIST_W}x{HIST_H} file, then {ops}, then save: level {m} must be written from '
-                                          f'"{why}" but other pixels were written'))
-            break
-    return probs
+    first = None
+    for alt in reject_alternatives(ops):
+        probs = []
+        for m, ((why, exp), g) in enumerate(zip(spec_history(levels, alt), got)):
+            if why == 'unjudged':
+                break
+            if g != exp:
+                black = g == bytes((0, 0, 0, 255)) * (len(g) // 4)
+                if rejects:
+                    culprit = _culprit(base, n, levels, ops, m) if blame else rejects[0]
+                    probs.append((f'rejected-call-changes-what-is-saved-{culprit}',
+                                  f'lazy read of a {HIST_W}x{HIST_H} file, then {ops} (every "reject" is a call that raises and whose exception is '
+                                  f'caught), then save: level {m} must be written from "{why}" as if the rejected calls had not been made (or had '
+                                  f'only loaded the frame), but other pixels were written' + (' (opaque black)' if black else '')))
+                else:
+                    probs.append((HIST_KEYS[why], f'lazy read of a {HIST_W}x{HIST_H} file, then {ops}, then save: level {m} must be written from '
+                                                  f'"{why}" but other pixels were written'))
+                break
+        if not probs:
+            return []
+        if first is None:
+            first = probs
+    return first or []
 
 
 def _coq_ops(ops: list[list]) -> str:
@@ -2017,6 +2350,156 @@ def corr_frames(ck: Ck, frame_ok: bool) -> None:
         ck.extra['frame_history_disagreement'] = bad[:5]
 
 
+REJECT_METHOD = {'copy_short': 'copy_from', 'copy_long': 'copy_from', 'copy_rgb_without_format': 'copy_from', 'copy_frame_of_other_size': 'copy_from',
+                 'copy_format_without_decoder': 'copy_from', 'copy_not_a_buffer': 'copy_from', 'rescale_from_unrelated_size': 'rescale_from',
+                 'setitem_out_of_range': '__setitem__', 'getitem_out_of_range': '__getitem__', 'setitem_three_values': '__setitem__',
+                 'setitem_channel_out_of_range': '__setitem__', 'setitem_channel_not_a_number': '__setitem__', 'fill_out_of_range': 'fill'}
+
+
+def observed_exit(seed: int, pre: str, m: int, which: str) -> tuple[str, tuple[str, bool, str]] | None:
+    """The abstract state (origin of _data, texels modified, file source) in which the implementation really leaves the frame
+    when the call is rejected, in the vocabulary of the raise tables; None when the call is not rejected."""
+    from srctools.vtf import VTF
+    base, n, levels = history_base(seed)
+    m = min(m, n - 1)
+    v = VTF.read(io.BytesIO(base))
+    fr = v.get(mipmap=m)
+    if pre == 'loaded':
+        fr.load()
+    elif pre == 'cleared':
+        fr.clear()
+    elif pre == 'rescaled':
+        if m == 0:
+            return None
+        fr.rescale_from(v.get(mipmap=m - 1))
+    d, s = fr._data is not None, fr._fileinfo is not None
+    old = bytes(fr._data) if d else None
+    try:
+        _do_reject(v, fr, m, which)
+    except Exception:     # noqa: BLE001 - not rejected / another exception: judged by reject_view_case
+        return None
+    blank = bytes((0, 0, 0, 255)) * (fr.width * fr.height)
+    now = bytes(fr._data) if fr._data is not None else None
+    if now is None:
+        dd = 'None'
+    elif d and now == old:
+        dd = 'Keep'
+    elif now == levels[m]:
+        dd = 'File'
+    elif now == blank:
+        dd = 'Blank'
+    else:
+        dd = 'Other'
+    mod = False
+    if dd == 'Other':
+        for ref, name in ((old, 'Keep'), (levels[m], 'File'), (blank, 'Blank')):
+            if ref is not None and sum(1 for i in range(0, len(now), 4) if now[i:i + 4] != ref[i:i + 4]) <= 2:
+                dd, mod = name, True
+                break
+    ss = 'None' if fr._fileinfo is None else 'Keep'
+    return f'{int(d)}{int(s)}', (dd, mod, ss)
+
+
+def corr_raise_tables(ck: Ck, side: dict) -> None:
+    """Correspondence for the exits by exception: the state in which the implementation leaves a frame after each rejected call,
+    for each of the four abstract pre-states, must be one of the exits the translator computed for that method and pre-state."""
+    tables = side.get('raise_tables', {})
+    bad = []
+    seen = 0
+    for pre in ('lazy', 'loaded', 'cleared', 'rescaled'):
+        for m in (0, 1):
+            for which, method in REJECT_METHOD.items():
+                obs = observed_exit(ck.seed, pre, m, which)
+                if obs is None:
+                    continue
+                row, out = obs
+                seen += 1
+                ck.count('raise_exit_observations')
+                ck.hist('raise_exit_observed', f'{method}:{row}:{out[0]}{"*" if out[1] else ""}/{out[2]}')
+                exits = [tuple(x) for x in tables.get(method, {}).get(row, [])]
+                if out not in exits:
+                    bad.append({'call': which, 'method': method, 'frame': pre, 'level': m, 'row': row, 'observed': list(out), 'exits_of_the_translator': [list(x) for x in exits]})
+    ck.obligation('correspondence:frame-raise-exits', not bad and seen > 0,
+                  f'{seen} rejected calls on frames in the four abstract states: the state in which the implementation leaves the frame is one of the '
+                  f'exits by exception the translator computed for that method and pre-state: {len(bad)} disagreements' + (f'; first {bad[0]}' if bad else ''))
+    if bad:
+        ck.tie_broken.append('correspondence raise exits vs generated raise tables')
+        ck.extra['raise_exit_disagreement'] = bad[:5]
+
+
+def search_rejected(ck: Ck) -> None:
+    """Error paths (round 5): calls that a Frame / VTF must reject, made on frames of a lazily read file in every state
+    (still in the file, loaded, cleared, rescaled while still in the file), the exception caught, then (a) what the frame
+    shows, (b) what save() stores, inside random histories of the other operations; and streams that fail once."""
+    base, n, levels = history_base(ck.seed)
+    reported: set[str] = set()
+    for pre in ('lazy', 'loaded', 'cleared', 'rescaled'):
+        for m in sorted({0, 1, n - 1}):
+            if reject_view_case(ck.seed, pre, m, None):
+                continue        # the frame is wrong without any rejected call: that is the business of the frame histories
+            for which in REJECTS + VTF_REJECTS:
+                ck.count('rejected_call_views')
+                ck.hist('rejected_call', which)
+                ck.hist('rejected_call_frame_state', pre)
+                ck.seen(('rejview', pre, m, which))
+                for key, what in reject_view_case(ck.seed, pre, m, which):
+                    if key not in reported:
+                        reported.add(key)
+                        ck.violation(key, what, {'reject_view': [ck.seed, pre, m, which]})
+    for mode in ('seek', 'read', 'short'):
+        for m in (0, 1):
+            for then in ('load', 'getitem', 'save'):
+                ck.count('failing_stream_cases')
+                ck.seen(('flaky', mode, m, then))
+                for key, what in failed_load_case(ck.seed, mode, m, then):
+                    if key not in reported:
+                        reported.add(key)
+                        ck.violation(key, what, {'failed_load': [ck.seed, mode, m, then]})
+    if not reject_meta_case(ck.seed, None):        # else: the lazy re-save itself differs, reported by the file oracle
+        for which in META_REJECTS:
+            ck.count('rejected_call_whole_file')
+            ck.hist('rejected_call', which)
+            ck.seen(('rejmeta', which))
+            for key, what in reject_meta_case(ck.seed, which):
+                if key not in reported:
+                    reported.add(key)
+                    ck.violation(key, what, {'reject_meta': [ck.seed, which]})
+    fixed: list[list[list]] = []
+    for which in REJECTS:
+        for m in (0, 1):
+            fixed += [[['reject', m, which]], [['clear', m], ['reject', m, which]], [['load', m], ['reject', m, which]],
+                      [['reject', m, which], ['clear', min(m + 1, n - 1)]]]
+        fixed.append([['rescale', 1], ['reject', 1, which]])
+    for which in VTF_REJECTS:
+        fixed += [[['reject', 0, which]], [['clear', 1], ['reject', 0, which]], [['copy', 0, 0, 5], ['clear_after', 0], ['reject', 0, which]]]
+    cases = fixed + [gen_reject_history(ck.rng, n) for _ in range(ck.budget(150, 600))]
+    found: dict[str, tuple[list, str]] = {}
+    for ops in cases:
+        ck.count('rejected_call_histories')
+        ck.hist('rejected_call_history_length', len(ops))
+        for op in ops:
+            if op[0] == 'reject':
+                ck.hist('rejected_call', op[2])
+        ck.seen(('rejhist', json.dumps(ops)))
+        probs = check_history(base, n, levels, ops)
+        if probs and check_history(base, n, levels, [op for op in ops if op[0] != 'reject']):
+            continue            # wrong without the rejected calls as well: reported by the frame histories
+        for key, what in probs:
+            found.setdefault(key, (ops, what))
+    for key, (ops, what) in found.items():
+        small = list(ops)
+        i = 0
+        while i < len(small):
+            cand = small[:i] + small[i + 1:]
+            if any(k == key for k, _ in check_history(base, n, levels, cand)):
+                small = cand
+            else:
+                i += 1
+        what2 = next((w for k, w in check_history(base, n, levels, small) if k == key), what)
+        ck.violation(key, what2, {'history': small, 'seed': ck.seed, 'how': 'checks.c15.check_history(*history_base(seed), history)'})
+    ck.sample({'rejected_call_history': cases[len(fixed)]})
+
+
 # ================================================================================================ main
 class _Deferred:
     """Runs Ck.instance_obligations in a background thread against a private list of obligations; merge() appends them to
@@ -2069,7 +2552,15 @@ def run(ck: Ck) -> None:
                'through each of 9 (getitem, buffer index by index, bytes(memoryview), raw array, to_PIL, to_tkinter PPM, two wx '
                'converters on a stand-in module, save+read), plus out-of-range probes, allocation lengths, copy_from of frames of '
                'other sizes with the same pixel count; non-trivial = non-square. DXT1 block layout: six shapes of solid 4x4 blocks '
-               'through copy_from and the lazy load.')
+               'through copy_from and the lazy load. '
+               'rejected calls (round 5): 14 calls a Frame must reject (wrong-length / RGB / non-buffer source, frame of another size, '
+               'format without decoder, rescale_from an unrelated size, index out of range, 3-tuple, channel 999 / not a number, '
+               'fill(256), plus the self-copy) and 4 a VTF must reject (version 7.9, volumetric as 7.1, missing key, a stream that fails '
+               'after 200 bytes) on levels 0, 1 and the last of a lazily read 32x16 file in four states (in the file, loaded, cleared, '
+               'rescaled while in the file): what the frame shows; the same calls inside random histories of the other operations '
+               '(1-2 rejected calls each) plus fixed ones: what save() stores; 13 rejected VTF-level calls on a 7.4 file with '
+               'resources, sheet and thumbnail: the next save() byte for byte; streams that fail once (seek, read, short read) '
+               'during load() / pixel access / save(); distinct by (state, level, call) resp. operation list.')
     ck.trusted.append('Fmt/VtfPixelExpr.v specification tuples spec_* / canon_* (hand-written from the docstrings; their meaning as functions '
                       'is restated by c15_spec_* theorems) and checks/c15.py ref_quantise (independent Python restatement used by the oracle)')
     ck.trusted.append('translate/c15_frame.py tables D_COQ/S_COQ and READERS, translate/c15_container.py tables SAVE_FIELD/READ_FIELD/READ_ATTR '
@@ -2082,12 +2573,20 @@ def run(ck: Ck) -> None:
                       'fixed argument conventions of PIL frombuffer / memoryview.cast / wx.Image / wx.Bitmap, _role (which dimension a local '
                       'derives from); the `if` -> ETest-chain encoding of translate/c15_pixel.py (x < 128 = bit 7 clear, x == c = eight bit '
                       'tests; valid for bytes, cross-checked by the codec correspondence)')
+    ck.trusted.append('translate/c15_frame.py raise_exits (round 5): which statements can be left by an exception (explicit raise, assert, import, every '
+                      'call except isinstance / three-argument getattr, the middle of a multi-element store into the pixel array unless the value is an '
+                      'array("B") or a slice of a pixel array), the composition with the exits of load() at self.load(); MUTATING_CALLS (container '
+                      'methods that count as a store in the census of VTF methods); checks/c15.py reject_alternatives (a rejected call = nothing or load())')
     ck.assumptions += [
         'a shaped view of the pixel array (buffer protocol, PIL) is modelled for non-negative indexes; negative indexes follow the Python '
         'from-the-end convention and stay inside the array',
         'a frame is stored as the concatenation of its pixels\' stored bytes (encode_frame): the codec translator accepts only per-pixel '
         'loops / strided slice copies with offsets inside one pixel',
-        'a frame is not passed to its own copy_from/rescale_from (no aliasing of self and the parameter frame)',
+        'a frame is not passed to its own copy_from/rescale_from in the model (no aliasing of self and the parameter frame); '
+        'frame.copy_from(frame) on frames in every state is covered by the rejected-call oracle only',
+        'exits by exception: a call either raises before it has changed the frame or does not raise (the decoders and scale_down '
+        'validate sizes before they write); the calls that cannot raise are isinstance(x, T) and getattr(x, name, default) only; '
+        'MemoryError / KeyboardInterrupt between two statements are not modelled',
         'encode_file/decode_file and make_sheet/read_sheet are hand-written models of VTF.save/VTF.read and SheetSequence.make_data/'
         'from_resource: the whole-file and sheet theorems are about the models; their tie to the source is the regenerated sites, flag '
         'trees, side lists, loop nests and event order (instance obligations) plus the two-way container correspondence of every run',
@@ -2105,6 +2604,10 @@ def run(ck: Ck) -> None:
         cod, _ = c15_pixel.codecs_ir()
     built = ok1 and ok2 and ok3 and ok4 and ok5 and ck.build(['Props/C15.vo'])
     if built:
+        # the two facts about generated FORMULAS (premises pixel_offsets_spec / scale_strides_spec of the theorems): their ring / lia
+        # proofs are compiled here, one named obligation each
+        ck.build(['Fmt/VtfGenPixelOffsetIs4TimesYWidthPlusX.vo'])
+        ck.build(['Fmt/VtfGenScaleDownStridesSelectThe2x2ParentBlock.vo'])
         codecs_done = corr_codecs(ck, cod)     # six coqc processes in the background while the stages below run
         obs: dict[str, str] = {}
         for name in sorted(set(SPECS) | set(cod) | set(BLUESCREEN)):
@@ -2153,7 +2656,13 @@ def run(ck: Ck) -> None:
             'nearest_filters_use_the_same_texel_offsets_as_bilinear': 'nearest_offsets_same_as_bilinear',
         })
         # the four groups of instance obligations run in the background (two coqc each) while Print Assumptions runs here
-        groups = [_Deferred(ck, IMPORTS, obs, 'inst'), _Deferred(ck, IMPORTS_FRAME, FRAME_OBS, 'inst_frame'),
+        # the single premise of c15_property, per generated codec (the 565 formats are carved out by the known finding)
+        whole = {f'all_premises_of_c15_property_hold_for_the_generated_objects_and_codec_{name}':
+                 f'c15_generated_objects_ok codec_{name} {SPECS[name][0]} ({SPECS[name][1]})'
+                 for name in sorted(SPECS) if name in cod and name not in SWAP_565}
+        whole['the_premises_of_c15_property_other_than_the_codec_hold_for_the_generated_objects'] = \
+            '(container_ok && lifecycle_ok && access_ok && mipmaps_ok)%bool'
+        groups = [_Deferred(ck, IMPORTS_WHOLE, whole, 'inst_whole'), _Deferred(ck, IMPORTS, obs, 'inst'), _Deferred(ck, IMPORTS_FRAME, frame_obligations(ck.extra['translated']['VtfFrameSM_gen']), 'inst_frame'),
                   _Deferred(ck, IMPORTS_CONT, CONT_OBS, 'inst_cont'),
                   _Deferred(ck, IMPORTS_ACCESS, access_obligations(ck.extra['translated']['VtfAccess_gen']), 'inst_access')]
         ck.theorems('Props/C15.v')
@@ -2162,6 +2671,9 @@ def run(ck: Ck) -> None:
         _stage(ck, 'container-correspondence', corr_container, alarm=False)     # waits for coqc: no alarm, exceptions only
         codecs_done()
     _stage(ck, 'frame-histories', corr_frames, bool(built), alarm=False)
+    if ok3:
+        _stage(ck, 'raise-exit-correspondence', corr_raise_tables, ck.extra['translated']['VtfFrameSM_gen'])
+    _stage(ck, 'rejected-call-search', search_rejected)
     _stage(ck, 'codec-search', search_codecs)
     _stage(ck, 'bounds-search', search_bounds)
     _stage(ck, 'pixel-path-search', search_paths)
@@ -2204,6 +2716,15 @@ def run(ck: Ck) -> None:
             ck.explain('instance:save_records')
             ck.explain('instance:example_')
             ck.explain('correspondence:container')
+        if k.startswith(('rejected-call-', 'call-that-must-be-rejected')) and 'copy_frame_of_other_size' in k:
+            ck.explain('instance:whole_array_')      # the copy between frames of different sizes happened (in part) before it was rejected
+        if k.startswith(('rejected-call-', 'failed-load-', 'call-that-must-be-rejected')):
+            ck.explain('instance:vtf_methods_other_than_init')
+            ck.explain('correspondence:frame-raise-exits')
+            ck.explain('instance:frame_')
+            ck.explain('instance:every_frame_method_keeps')
+            ck.explain('translate:VtfFrameSM_gen')
+            ck.explain('correspondence:frame-histories')
         if k.startswith(('frame-history-', 'lazy-resave-')):
             ck.explain('instance:frame_')
             ck.explain('instance:compute_mipmaps_')
@@ -2229,6 +2750,8 @@ def run(ck: Ck) -> None:
             ck.explain('instance:whole_array_')
             ck.explain('instance:every_pixel_')
             ck.explain('translate:VtfAccess_gen')
+        if k.startswith(('frame-getitem', 'frame-setitem', 'pixel-path-')):
+            ck.explain('build:Fmt/VtfGenPixelOffset')
         if k.startswith('frame-getitem'):
             ck.explain('instance:getitem_')
             ck.explain('instance:every_pixel_path')
@@ -2261,6 +2784,14 @@ def run(ck: Ck) -> None:
             ck.explain('instance:read_level')
             ck.explain('instance:save_and_read')
             ck.explain('instance:frame_key')
+    # the premise of c15_property is the conjunction of premises that have their own named obligations: it is explained exactly
+    # when every broken part is (a part broken without a failing input keeps the whole unexplained as well)
+    whole_prefixes = ('instance:all_premises_of_c15_property', 'instance:the_premises_of_c15_property')
+    parts_unexplained = [o for o in ck.obligations if not o['ok'] and not o.get('explained') and not o['name'].startswith(whole_prefixes)]
+    parts_broken = [o for o in ck.obligations if not o['ok'] and not o['name'].startswith(whole_prefixes)]
+    if parts_broken and not parts_unexplained:
+        for pfx in whole_prefixes:
+            ck.explain(pfx)
 
 
 def replay(data: dict) -> int:
@@ -2287,6 +2818,18 @@ def replay(data: dict) -> int:
         return 0
     if 'full_chain' in r:
         print(full_chain(*r['full_chain']))
+        return 0
+    if 'reject_view' in r:
+        for k, w in reject_view_case(*r['reject_view']):
+            print(k, '::', w)
+        return 0
+    if 'reject_meta' in r:
+        for k, w in reject_meta_case(*r['reject_meta']):
+            print(k, '::', w)
+        return 0
+    if 'failed_load' in r:
+        for k, w in failed_load_case(*r['failed_load']):
+            print(k, '::', w)
         return 0
     if 'history' in r:
         base, n, levels = history_base(r['seed'])
